@@ -7,61 +7,80 @@
 (* predicted.  This makes the implicit part of the stored format explicit: *)
 (* a change of the hash function, of what enters the dictionary, of the    *)
 (* candidate order, of a search limit or of the lazy rule is a different   *)
-(* prediction somewhere.                                                   *)
+(* prediction somewhere.  The correction operations of every token are    *)
+(* recomputed as well (which flag, the length difference, the distance as  *)
+(* a number of hops) and the decoder's inverse (hop_match) is applied to   *)
+(* them: together with Stream.tla, TreePredict.tla / HuffCalc.tla and      *)
+(* Params.tla the whole operation sequence of a stream is then a function  *)
+(* the specification computes from the stream and its parameters.          *)
 (*                                                                         *)
 (*  Reset   run params plain supported                                     *)
 (*  Stored  len                    a stored block                          *)
 (*  Block                          start of a Huffman block                *)
 (*  Tok     t (target) p (predicted: kind len dist) pos pend               *)
+(*          ops (the correction operations the encoder emitted for it)     *)
 (*  End                                                                    *)
 (***************************************************************************)
 EXTENDS Match, TLC, Json, IOUtils
 
 Rec == ndJsonDeserialize(IOEnv.TRACE)
 
-VARIABLES l, base, pos, chains, pend, H, phase
-vars == <<l, base, pos, chains, pend, H, phase>>
+VARIABLES l, base, pos, chains, pend, H, chains3, H3, phase
+vars == <<l, base, pos, chains, pend, H, chains3, H3, phase>>
+Dict == [H |-> H, chains |-> chains, H3 |-> H3, chains3 |-> chains3]
 TraceView == <<l, pos, pend, phase>>
 
 Plain == Rec[base].plain
 Par == Rec[base].params
 N == Len(Plain)
 
-Init == l = 1 /\ base = 1 /\ pos = 0 /\ chains = <<>> /\ pend = NoRef /\ H = <<>> /\ phase = "idle"
+Init == l = 1 /\ base = 1 /\ pos = 0 /\ chains = <<>> /\ pend = NoRef /\ H = <<>> /\ chains3 = <<>> /\ H3 = <<>> /\ phase = "idle"
 IsEvent(e) == l <= Len(Rec) /\ Rec[l].e = e /\ l' = l + 1
 
-\* hash of every position that has three bytes
-Hashes(plain, p) == [q \in 1..(IF Len(plain) >= 3 THEN Len(plain) - 2 ELSE 0) |-> HashAt(plain, q - 1, p)]
+\* hash of every position that has enough bytes for the hash function
+Hashes(plain, p) == [q \in 1..(IF Len(plain) >= HashBytes(p) THEN Len(plain) - HashBytes(p) + 1 ELSE 0) |-> HashAt(plain, q - 1, p)]
+Hashes3(plain, p) == IF HasSecondary(p)
+                     THEN [q \in 1..(IF Len(plain) >= 3 THEN Len(plain) - 2 ELSE 0) |-> LibdeflateHash3(plain, q - 1)]
+                     ELSE <<>>
 
 Reset == /\ IsEvent("Reset") /\ phase = "idle"
          /\ base' = l /\ pos' = 0 /\ pend' = NoRef
          /\ IF Rec[l].supported
-            THEN H' = Hashes(Rec[l].plain, Rec[l].params) /\ chains' = EmptyChains(Rec[l].params) /\ phase' = "run"
-            ELSE H' = <<>> /\ chains' = <<>> /\ phase' = "skip"
+            THEN /\ \E h \in {Hashes(Rec[l].plain, Rec[l].params)} : H' = h /\ chains' = EmptyChains(h)
+                 /\ \E h \in {Hashes3(Rec[l].plain, Rec[l].params)} : H3' = h /\ chains3' = EmptyChains(h)
+                 /\ phase' = "run"
+            ELSE H' = <<>> /\ chains' = <<>> /\ H3' = <<>> /\ chains3' = <<>> /\ phase' = "skip"
 \* hash functions outside 32-bit arithmetic, or no dictionary at all: nothing to recompute
-Skip == /\ IsEvent("Skip") /\ phase = "skip" /\ phase' = "idle" /\ UNCHANGED <<base, pos, chains, pend, H>>
+Skip == /\ IsEvent("Skip") /\ phase = "skip" /\ phase' = "idle" /\ UNCHANGED <<base, pos, chains, pend, H, chains3, H3>>
 
 \* a stored block adds every byte on its own
+Singles(from, to, nhb) == [i \in 1..(IF Mn(to, N - nhb) > from THEN Mn(to, N - nhb) - from ELSE 0) |-> from + i - 1]
 StoredEv == /\ IsEvent("Stored") /\ phase = "run"
             /\ pos + Rec[l].len <= N
-            /\ chains' = InsertAll(chains, H, [i \in 1..(IF Mn(pos + Rec[l].len, N - 3) > pos THEN Mn(pos + Rec[l].len, N - 3) - pos ELSE 0) |-> pos + i - 1], 1)
+            /\ chains' = InsertAll(chains, H, Singles(pos, pos + Rec[l].len, HashBytes(Par)), 1)
+            /\ chains3' = IF HasSecondary(Par) THEN InsertAll(chains3, H3, Singles(pos, pos + Rec[l].len, 3), 1) ELSE chains3
             /\ pos' = pos + Rec[l].len /\ pend' = NoRef
-            /\ UNCHANGED <<base, H, phase>>
-BlockEv == /\ IsEvent("Block") /\ phase = "run" /\ pend' = NoRef /\ UNCHANGED <<base, pos, chains, H, phase>>
+            /\ UNCHANGED <<base, H, H3, phase>>
+BlockEv == /\ IsEvent("Block") /\ phase = "run" /\ pend' = NoRef /\ UNCHANGED <<base, pos, chains, H, chains3, H3, phase>>
 
 TokLen(t) == IF t[1] = 0 THEN 1 ELSE t[2]
-TokWith(ev, pr) ==
+TokWith(ev, st, pr) ==
   /\ ev.pos = pos
   /\ ev.pend = (IF pend = NoRef THEN 0 ELSE 1)
   /\ ev.p = <<pr.tok[1], pr.tok[2], pr.tok[3]>>                         \* the prediction itself
+  /\ ev.ops = TokenOps(Plain, Dict, st, Par, ev.t, pr)                   \* what the encoder says about the token
+  /\ (ev.t[1] = 1 =>                                                    \* and what the decoder makes of that
+        Decoded(Plain, Dict, st, Par, ev.ops,
+                IF pr.tok[1] = 1 THEN <<pr.tok[2], pr.tok[3]>> ELSE Repredict(Plain, Dict, st, Par)) = <<ev.t[2], ev.t[3]>>)
   /\ chains' = InsertAll(chains, H, Added(N, pos, TokLen(ev.t), Par), 1)
+  /\ chains3' = IF HasSecondary(Par) THEN InsertAll(chains3, H3, Added3(N, pos, TokLen(ev.t), Par), 1) ELSE chains3
   /\ pos' = pos + TokLen(ev.t) /\ pos + TokLen(ev.t) <= N
   /\ pend' = IF ev.t[1] = 0 THEN pr.pend ELSE NoRef
 TokEv == /\ IsEvent("Tok") /\ phase = "run"
-         /\ TokWith(Rec[l], Predict(Plain, chains, H, [pos |-> pos, pend |-> pend], Par))
-         /\ UNCHANGED <<base, H, phase>>
+         /\ \E st \in {[pos |-> pos, pend |-> pend]} : TokWith(Rec[l], st, Predict(Plain, Dict, st, Par))
+         /\ UNCHANGED <<base, H, H3, phase>>
 
-EndEv == /\ IsEvent("End") /\ phase = "run" /\ pos = N /\ phase' = "idle" /\ UNCHANGED <<base, pos, chains, pend, H>>
+EndEv == /\ IsEvent("End") /\ phase = "run" /\ pos = N /\ phase' = "idle" /\ UNCHANGED <<base, pos, chains, pend, H, chains3, H3>>
 
 Next == Reset \/ Skip \/ StoredEv \/ BlockEv \/ TokEv \/ EndEv
 Spec == Init /\ [][Next]_vars
